@@ -739,10 +739,11 @@ RefResult run(const Model& m, const char* bytes, int64_t n, const RunOptions& op
             states.push_back(act.arg);
             res.max_depth = std::max(res.max_depth, int(states.size()));
             Val v;
-            v.digest = sim::leaf_digest(lex, uint32_t(cur.line), uint32_t(cur.col));
-            v.sdigest = sim::leaf_digest(lex, 0, 0);
+            const bool valueless = cur.term >= 0 && size_t(cur.term) < g.terms.size() && g.terms[size_t(cur.term)].valueless;
+            v.digest = sim::leaf_digest(valueless ? std::string() : lex, uint32_t(cur.line), uint32_t(cur.col));
+            v.sdigest = sim::leaf_digest(valueless ? std::string() : lex, 0, 0);
             res.shifted.push_back(cur);
-            if (lex.size() < 4096) v.text = "'" + lex + "'@" + std::to_string(cur.line) + ":" + std::to_string(cur.col);
+            if (lex.size() < 4096) v.text = "'" + (valueless ? std::string() : lex) + "'@" + std::to_string(cur.line) + ":" + std::to_string(cur.col);
             values.push_back(std::move(v));
             advance_pos(line, col, bytes + cur.off, cur.len);
             pos = cur.off + cur.len;
